@@ -11,6 +11,7 @@ import (
 	"context"
 	"errors"
 	"fmt"
+	"io"
 	"net"
 	"sync"
 	"sync/atomic"
@@ -94,13 +95,52 @@ func (s *c02Service) Deposit(ctx context.Context, req *mock.DepositRequest) (*mo
 	return &mock.DepositResponse{Ok: true}, nil
 }
 
+// c02StreamDesc is a hand-written bidirectional streaming method served by the
+// same scripted service: the first message names the run.
+var c02StreamDesc = grpc.ServiceDesc{
+	ServiceName: "c02.Stream",
+	HandlerType: (*interface{})(nil),
+	Streams: []grpc.StreamDesc{{StreamName: "Echo", ServerStreams: true, ClientStreams: true,
+		Handler: func(srv interface{}, stream grpc.ServerStream) error {
+			return srv.(*c02Service).echo(stream)
+		}}},
+}
+
+func (s *c02Service) echo(stream grpc.ServerStream) error {
+	var req mock.DepositRequest
+	if err := stream.RecvMsg(&req); err != nil {
+		return err
+	}
+	v, ok := s.runs.Load(int64(req.GetAmount()))
+	if !ok {
+		return status.Error(codes.OutOfRange, "c02: unknown run")
+	}
+	r := v.(*c02Run)
+	atomic.AddInt32(&r.entries, 1)
+	defer r.once[2].Do(func() { close(r.done) })
+	switch r.sc.Kind {
+	case "stream-panic":
+		panic(fmt.Sprintf("c02 scripted stream panic %d", r.id))
+	case "stream-send-panic":
+		if err := stream.SendMsg(&mock.DepositResponse{Ok: true}); err != nil {
+			return err
+		}
+		panic(fmt.Errorf("c02 scripted stream panic after send %d", r.id))
+	}
+	if r.sc.Code != 0 {
+		return status.Error(codes.Code(r.sc.Code), fmt.Sprintf("c02 handler error %d", r.id))
+	}
+	return stream.SendMsg(&mock.DepositResponse{Ok: true})
+}
+
 type c02Live struct {
-	svc    *c02Service
-	gs     *grpc.Server
-	conn   *grpc.ClientConn
-	client mock.DepositServiceClient
-	tmo    time.Duration
-	fails  int64
+	userUnary, userStream, userOpt int64 // invocations of the user-supplied interceptors
+	svc                            *c02Service
+	gs                             *grpc.Server
+	conn                           *grpc.ClientConn
+	client                         mock.DepositServiceClient
+	tmo                            time.Duration
+	fails                          int64
 }
 
 func c02StartRPC(m *vk.M, tag string, timeout time.Duration) (*c02Live, bool) {
@@ -113,14 +153,28 @@ func c02StartRPC(m *vk.M, tag string, timeout time.Duration) (*c02Live, bool) {
 		addr := l.Addr().String()
 		l.Close()
 		lv := &c02Live{svc: &c02Service{}, tmo: timeout}
-		s := NewServer(addr, WithMetrics(stat.NewMetrics("c02-"+tag)))
+		s := NewServer(addr, WithMetrics(stat.NewMetrics("c02-"+tag)), WithHealth(tag == "long"))
 		s.SetName("c02-" + tag)
+		// user-supplied interceptors and options must add to the built-in guards, not replace them
+		s.AddUnaryInterceptors(func(ctx context.Context, req interface{}, _ *grpc.UnaryServerInfo, h grpc.UnaryHandler) (interface{}, error) {
+			atomic.AddInt64(&lv.userUnary, 1)
+			return h(ctx, req)
+		})
 		s.AddUnaryInterceptors(serverinterceptors.UnaryTimeoutInterceptor(timeout))
+		s.AddStreamInterceptors(func(srv interface{}, ss grpc.ServerStream, _ *grpc.StreamServerInfo, h grpc.StreamHandler) error {
+			atomic.AddInt64(&lv.userStream, 1)
+			return h(srv, ss)
+		})
+		s.AddOptions(grpc.MaxConcurrentStreams(256), grpc.UnaryInterceptor(func(ctx context.Context, req interface{}, _ *grpc.UnaryServerInfo, h grpc.UnaryHandler) (interface{}, error) {
+			atomic.AddInt64(&lv.userOpt, 1)
+			return h(ctx, req)
+		}))
 		registered := make(chan *grpc.Server, 1)
 		failed := make(chan error, 1)
 		go func() {
 			failed <- s.Start(func(gs *grpc.Server) {
 				mock.RegisterDepositServiceServer(gs, lv.svc)
+				gs.RegisterService(&c02StreamDesc, lv.svc)
 				registered <- gs
 			})
 		}()
@@ -256,6 +310,81 @@ func (lv *c02Live) scenario(m *vk.M, tag string, sc c02Script) bool {
 
 var c02Sampled sync.Map
 
+// streamScenario: one bidirectional stream. A panic in the stream handler must
+// reach the client as codes.Internal (StreamCrashInterceptor) and the server must
+// keep serving.
+func (lv *c02Live) streamScenario(m *vk.M, tag string, sc c02Script) bool {
+	run := &c02Run{id: atomic.AddInt64(&c02NextID, 1), sc: sc, gate: make(chan struct{}), blocked: make(chan struct{}), done: make(chan struct{})}
+	lv.svc.runs.Store(run.id, run)
+	defer lv.svc.runs.Delete(run.id)
+	desc := fmt.Sprintf("case=0;server=%s;run=%d;script=%s", tag, run.id, vk.JSON(sc))
+	type out struct {
+		first, final error
+		got          bool
+	}
+	ch := make(chan out, 1)
+	go func() {
+		var o out
+		ctx, cancel := context.WithTimeout(context.Background(), 2*c02Watchdog)
+		defer cancel()
+		st, err := lv.conn.NewStream(ctx, &grpc.StreamDesc{StreamName: "Echo", ServerStreams: true, ClientStreams: true}, "/c02.Stream/Echo")
+		if err != nil {
+			o.first, o.final = err, err
+			ch <- o
+			return
+		}
+		if err := st.SendMsg(&mock.DepositRequest{Amount: float32(run.id)}); err != nil {
+			o.first = err
+		}
+		_ = st.CloseSend()
+		var resp mock.DepositResponse
+		if err := st.RecvMsg(&resp); err != nil {
+			o.final = err
+		} else {
+			o.got = resp.GetOk()
+			o.final = st.RecvMsg(&resp) // io.EOF on a clean end, the status error otherwise
+		}
+		ch <- o
+	}()
+	var o out
+	select {
+	case o = <-ch:
+	case <-time.After(c02Watchdog):
+		m.Inconclusive("rpcserver %s: stream did not finish within the watchdog", sc.Kind)
+		return false
+	}
+	code := status.Code(o.final)
+	if o.final != nil && o.final != io.EOF && (code == codes.Internal || code == codes.Unavailable) {
+		atomic.AddInt64(&lv.fails, 1)
+	}
+	if atomic.LoadInt32(&run.entries) == 0 && o.final != nil && o.final != io.EOF && atomic.LoadInt64(&lv.fails) > 0 && (code == codes.Unknown || code == codes.Unavailable) {
+		m.Count("breaker_reject_tolerated", 1)
+		return false
+	}
+	violate := func(sig, format string, a ...any) bool {
+		m.Violate("C02:rpcserver:"+sig, desc, "%s | client saw first-msg=%v end=%v (send err %v)", fmt.Sprintf(format, a...), o.got, o.final, o.first)
+		return false
+	}
+	switch sc.Kind {
+	case "stream-ok":
+		if sc.Code == 0 {
+			if !o.got || o.final != io.EOF {
+				return violate("stream:not-handler-result", "stream handler sent one message and returned nil")
+			}
+		} else if o.got || code != codes.Code(sc.Code) {
+			return violate("stream:not-handler-result", "stream handler returned status %v", codes.Code(sc.Code))
+		}
+		m.Count("stream_result_handler", 1)
+	case "stream-panic", "stream-send-panic":
+		if o.final == nil || o.final == io.EOF || code != codes.Internal {
+			return violate(sc.Kind+":not-internal", "stream handler panicked, want the stream to end with Internal")
+		}
+		m.Count("stream_panic_internal", 1)
+	}
+	m.Case(fmt.Sprintf("rpcserver|%s|code=%d", sc.Kind, sc.Code), true)
+	return true
+}
+
 const c02RPCServerRule = "real gRPC server (rpc/internal.NewServer+Start, loopback, scripted Deposit service, grpc client): fast ⇒ the handler's reply/status; gated late ⇒ DeadlineExceeded from the server; panic ⇒ Internal; late panic does not kill the process; the server keeps serving after each"
 
 func TestVerifC02RPCServer(t *testing.T) {
@@ -306,9 +435,25 @@ func TestVerifC02RPCServer(t *testing.T) {
 		case 3:
 			long.scenario(m, "long", c02Script{Kind: "fast", Code: int(codes.Unavailable)})
 		}
+		// streaming: mostly clean streams, a panic every other round (Internal counts for the stream's breaker)
+		for k := 0; k < 4; k++ {
+			long.streamScenario(m, "long", c02Script{Kind: "stream-ok", Code: okCodes[r.Intn(len(okCodes))]})
+		}
+		if i%2 == 0 {
+			long.streamScenario(m, "long", c02Script{Kind: []string{"stream-panic", "stream-send-panic"}[(i/2)%2]})
+			long.streamScenario(m, "long", c02Script{Kind: "stream-ok"})
+		}
 		// the server still answers
 		long.scenario(m, "long", c02Script{Kind: "fast"})
 		shortSrv.scenario(m, "short", c02Script{Kind: "fast"})
 	}
+	for _, lv := range []*c02Live{long, shortSrv} {
+		if atomic.LoadInt64(&lv.userUnary) == 0 || atomic.LoadInt64(&lv.userOpt) == 0 {
+			m.Inconclusive("user-supplied unary interceptors were never invoked (AddUnaryInterceptors %d, grpc.UnaryInterceptor option %d)", lv.userUnary, lv.userOpt)
+		}
+	}
+	m.Count("user_unary_interceptor_calls", atomic.LoadInt64(&long.userUnary)+atomic.LoadInt64(&shortSrv.userUnary))
+	m.Count("user_option_interceptor_calls", atomic.LoadInt64(&long.userOpt)+atomic.LoadInt64(&shortSrv.userOpt))
+	m.Count("user_stream_interceptor_calls", atomic.LoadInt64(&long.userStream))
 	_ = errors.New
 }
